@@ -8,6 +8,7 @@ import (
 	"io"
 	"os"
 	"os/exec"
+	"path/filepath"
 	"strings"
 	"sync"
 	"syscall"
@@ -236,6 +237,8 @@ func (p *Pool) Start() {
 						}
 						if !res2.TimedOut {
 							res2.WatchdogRetry = true
+							// keep the goroutine dump of the stalled attempt for diagnosis
+							os.WriteFile(filepath.Join(os.TempDir(), fmt.Sprintf("verif-watchdog-%s-%d.txt", job.Prop, job.Seed)), []byte(res.CrashText), 0o644)
 							res = res2
 						}
 					}
